@@ -100,6 +100,10 @@ def to_wikitext(
             parts.append(node.sarg)
             for x in node.children:
                 parts.append(recurse(x))
+            if node.definition is not None:
+                # "; term : definition"
+                parts.append(":")
+                parts.append(recurse(node.definition))
         elif kind == NodeKind.PRE:
             parts.append("<pre>")
             parts.append(recurse(node.children))
